@@ -94,6 +94,7 @@ def main(bdir, gen_dir, aux, exported_file, built_file=None):
     vers = X.versions(repo)
     fwr = X.fortran_wrappers(repo)
     bstructs = dict(fortran=X.fortran_structs(repo, cst), pascal=pu['structs'], cython=X.cython_structs(repo, cst))
+    cpp_structs, cpp_members, cpp_members_info = X.cpp_class_members(repo, bdir, aux, cst)
     idlf = X.idl_functions(repo, [n for n in cp if cp[n].file != '<libc>'])
     libtool = X.libtool_versions(repo)
     swig_inv = X.swig_invocations(repo)
@@ -327,6 +328,25 @@ def main(bdir, gen_dir, aux, exported_file, built_file=None):
                 key = '%s struct %s' % (st.file, st.name)
                 report['diffs'].append(dict(kind='struct', binding=lang, name=st.name, file=st.file, line=st.line, found=st.show(), expected='%s %s (%s:%d)' % (c.name, c.show(), c.file, c.line), key=key,
                                             what='%s:%d declares the record %s as %s; the C struct %s is %s' % (st.file, st.line, st.name, st.show(), c.name, c.show()), known=key in fkeys))
+    # ---- C++ value classes: the declared type of every data member against the field of the C struct it is a copy of
+    for r in cpp_members:
+        c = cst[r['struct']]
+        ct = dict(c.fields).get(r['field'])
+        craw = next((q for n, _, q in (c.raw or []) if n == r['field']), None)
+        t = tuple(r['type'])
+        bad = []
+        if ct is None: bad.append('struct %s has no field %s' % (c.name, r['field']))
+        elif not agree(t, ct): bad.append('the member is declared `%s` (%s), the field is `%s %s` (%s)' % (r['declared'], 'stands for no C type of the C++ -> C type map' if t[0] == 'other' else 'stands for C ' + X.fmt_type(t), craw, r['field'], X.fmt_type(ct)))
+        if r['count'] is not None:
+            nt = dict(c.fields).get(r['count'])
+            if nt is None or not agree(('int', '?'), nt): bad.append('the element count is taken from `%s`, which is %s of struct %s' % (r['count'], 'no field' if nt is None else 'not an int field', c.name))
+        if bad:
+            key = '%s member %s::%s' % (r['file'], r['cls'], r['member'])
+            report['diffs'].append(dict(kind='struct-cpp', binding='cpp', name='%s::%s' % (r['cls'], r['member']), file=r['file'], line=r['line'], found='%s %s::%s' % (r['declared'], r['cls'], r['member']),
+                                        expected='%s %s  (field of struct %s, %s:%d; the constructor at %s:%d copies it into the member)' % (craw or '(no such field)', r['field'], c.name, c.file, c.line, r['file'], r['ctor_line']), key=key,
+                                        found_type=list(t), expected_type=None if ct is None else list(ct),
+                                        what='%s:%d: data member %s of class %s, the C++ face of field %s of struct %s (%s:%d): %s' % (r['file'], r['line'], r['member'], r['cls'], r['field'], c.name, c.file, c.line, '; '.join(bad)),
+                                        known=key in fkeys))
     # ---- build definition of the library; libtool triple; SWIG -includeall
     if bdef['meson'] != bdef['automake']:
         for f in sorted(set(bdef['meson']) ^ set(bdef['automake'])):
@@ -461,6 +481,10 @@ def main(bdir, gen_dir, aux, exported_file, built_file=None):
     emit_table(L, 'struct_fortran', 'S', bstructs['fortran'], lambda st: rS(st, True), 'TYPE, BIND(C) of fortran/xraylib_wrap.F90: ' + ' '.join(st.name for st in bstructs['fortran']))
     emit_table(L, 'struct_pascal', 'S', bstructs['pascal'], lambda st: rS(st, True), 'records of pascal/xraylib.pas: ' + ' '.join(st.name for st in bstructs['pascal']))
     emit_table(L, 'struct_cython', 'S', bstructs['cython'], lambda st: rS(st, False), 'structs declared by python/xraylib_np_c.pxd: ' + ' '.join(st.name for st in bstructs['cython']))
+    emit_table(L, 'struct_cpp', 'S', cpp_structs, lambda st: rS(st, False),
+               'value classes of cplusplus/xraylib++.h by the C struct they mirror (a constructor takes a pointer / reference to it): (field the member is a copy of, declared type of the member mapped to C: '
+               'int/double/float, std::string -> char *, std::vector<T> -> T *, std::vector<class mirroring S> -> S *, anything else -> 900 = no C type; the count field of a vector member as int): '
+               + ' '.join('%s=%s' % (st.name, st.cname) for st in cpp_structs))
     emit_table(L, 'lib_sources_meson', 'Nat', sorted(bdef['meson'], key=nat_of), lambda n: str(nat_of(n)), "C sources of library('xrl', …) in src/meson.build")
     emit_table(L, 'lib_sources_automake', 'Nat', sorted(bdef['automake'], key=nat_of), lambda n: str(nat_of(n)), 'C sources in libxrl_la_SOURCES + nodist_libxrl_la_SOURCES of src/Makefile.am')
     emit_table(L, 'lib_sources_built', 'Nat', sorted(built if built is not None else bdef['meson'], key=nat_of), lambda n: str(nat_of(n)), 'C sources the library whose symbols are in `exported` was compiled from')
@@ -469,7 +493,7 @@ def main(bdir, gen_dir, aux, exported_file, built_file=None):
     emit_table(L, 'soname_refs', '(Nat × Nat)', pu['soname'], lambda x: '(%d,%d)' % (nat_of('pascal/xraylib.pas:%d' % x[0]), x[2]), 'library major numbers hard-coded in External_library strings of pascal/xraylib.pas')
     emit_table(L, 'swig_invocations', '(Nat × Nat)', swig_inv, lambda iv: '(%d,%d)' % (nat_of(iv['file']), 1 if iv['flag'] else 0), '(build file that runs SWIG on src/xraylib.i, 1 if with -includeall)')
     emit_table(L, 'swig_unincluded', 'Nat', sorted(swig_unincluded, key=nat_of), lambda n: str(nat_of(n)), 'public headers src/xraylib.i does not %include itself: ' + ' '.join(swig_unincluded))
-    for n in ('XRAYLIB_MAJOR', 'XRAYLIB_MINOR', 'XRAYLIB_MICRO'):
+    for n in ('XRAYLIB_MAJOR', 'XRAYLIB_MINOR', 'XRAYLIB_MICRO', 'compoundData', 'nAtomsAll', 'Crystal_Struct', 'atom'):
         L.append('/-- code of the name %s -/' % n); L.append('def name_%s : Nat := %d' % (n, nat_of(n)))
     L += ['', 'end XrlL4.Gen.C20', '']
     write_if_changed(os.path.join(gen_dir, 'C20.lean'), '\n'.join(L))
@@ -482,11 +506,12 @@ def main(bdir, gen_dir, aux, exported_file, built_file=None):
                                                                     c_header=cc[c.name].show() if c.name in cc else None) for c, sl, rd in jfeed['feed']], idl=idl_info, known=known, diffs=report['diffs'], findings=[list(f) for f in findings],
               wrappers={k: dict(calls=len(v['calls']), named=len(v['named']), native=v['native'], direct=len(v['direct'])) for k, v in wr.items()},
               structs=dict(c=[st.js() for st in cst.values()], **{k: [st.js() for st in v] for k, v in bstructs.items()}),
+              cpp_members=cpp_members, cpp_members_info=cpp_members_info,
               pascal_public=[p_.js() for p_ in pu['public']], idl_routines=dict(dlm=idlf['dlm'], sysfun=idlf['sysfun'], defined_not_registered=idlf['unregistered']),
               build=dict(bdef, built=built, facts=[[t_, ok] for t_, ok in facts]), libtool=libtool, soname=[list(x) for x in pu['soname']], swig_invocations=swig_inv, swig_unincluded=swig_unincluded,
               counts=dict(c_constants=len(cc), c_prototypes=len(cp), java_dynamic=len(jfeed['feed']), **{'const_' + b: len(tables[b]) for b in BINDINGS}, **{'proto_' + s: len(protos[s]) for s in PROTO_SETS},
                           swig_refs=len(swig['refs']), cpp_refs=len(cpp['refs']), cpp_types=len(cpp_typed), cpp_wrapped_c_functions=cpp_info['wrapped_c_functions'], versions=len(vers), families={f: len(fam[f]) for f in fam},
-                          **{'calls_' + k: len(v['calls']) + len(v['direct']) for k, v in wr.items()}, **{'struct_' + k: len(v) for k, v in bstructs.items()}, c_structs=len(cst),
+                          **{'calls_' + k: len(v['calls']) + len(v['direct']) for k, v in wr.items()}, **{'struct_' + k: len(v) for k, v in bstructs.items()}, c_structs=len(cst), cpp_members=len(cpp_members), cpp_value_classes=len(cpp_structs),
                           pascal_public=len(pu['public']), pascal_iface=len(iface), idl_dlm=len(idlf['dlm']), idl_sysfun=len(idlf['sysfun']), lib_sources=len(bdef['meson']),
                           libtool=len(libtool) + len(pu['soname']), swig_invocations=len(swig_inv)))
     json.dump(js, open(os.path.join(aux, 'c20.json'), 'w'), indent=0, default=str)
